@@ -1120,7 +1120,11 @@ fn rrt_vs_star(ctx: &Ctx, tier: Tier, seed: u64) -> Value {
                 // a fifth of the pairs: both planner objects are first asked to solve before setup
                 // (a refused call must not change what the same seed produces afterwards)
                 let refused = r.bool(0.2);
-                let run = |sc: &super::plan::Scenario| if refused { super::plan::exec_after_refused_solve::<K>(&kit, sc) } else { super::plan::exec::<K>(&kit, sc) };
+                // another fifth: both planner objects have solved a problem on another space
+                // object before (nothing of that success may bound or bias the new search)
+                let elsewhere = !refused && r.bool(0.25);
+                if elsewhere { b.count("rrt_vs_star_pairs_after_a_life_on_another_space", 1); }
+                let run = |sc: &super::plan::Scenario| if refused { super::plan::exec_after_refused_solve::<K>(&kit, sc) } else if elsewhere { super::plan::exec_after_life_elsewhere::<K>(&kit, sc) } else { super::plan::exec::<K>(&kit, sc) };
                 if let (Ok((_, r1)), Ok((_, r2))) = (run(&sc1), run(&sc2)) {
                     b.evaluations += 1;
                     b.count("rrt_vs_star_pairs", 1);
